@@ -25,12 +25,12 @@ WRAP = ('normal', 'pre-wrap', 'pre-line')
 COLLAPSE = ('normal', 'nowrap', 'pre-line')
 LETTERS = 'abcdefhijlmnopqrstuvwxyz'   # no 'k', no 'g': the test font kerns 'kk' and has a 1.5em ligature for 'liga'
 FINDING_HYPHEN = 'break-all-hyphen-width'
-FINDING_NEGW = 'negative-width-unbroken'
 FINDING_START_SPACING = 'inline-start-spacing-overflow'
 FINDING_END_SPACING = 'inline-end-spacing-overflow'
 FINDING_END_RESERVED = 'inline-end-spacing-reserved-early'
 FINDING_STALE_WIDTH = 'inline-box-width-stale'
-FINDING_TOP_BOTTOM = 'vertical-align-top-bottom-subtree'
+FINDING_BOUNDARY = 'waiting-box-boundary-opportunity-unused'
+FINDING_STALE_PRESERVED = 'preserved-line-break-flag-stale-after-rebreak'
 FINDING_FLOAT_INDENT = 'float-gap-text-indent-later-lines'
 FINDING_FLOAT_BAND = 'float-align-width-not-of-line-box'
 FINDING_SOFT_HYPHEN = 'soft-hyphen-forces-overflowing-line'
@@ -380,15 +380,11 @@ def hyphen_violation(case, impl):
 
 # ----- lines next to floats (rendered)
 
-def gen_float_doc(rng):
-    fs = Fraction(rng.choice([5, 8, 10, 10, 16]))
-    width = Fraction(rng.randint(6, 40)) * fs
+def gen_floats_html(rng, fs, band):
+    """1-3 left / right floats before the paragraph.  `band`: a float starts below the font-size but inside the
+    line-height of some line, so that the two avoid_collisions calls of get_next_linebox (strut height, then
+    font-size height) see different floats."""
     floats = ''
-    # `band`: a float starts below the font-size but inside the line-height of some line, so that the two
-    # avoid_collisions calls of get_next_linebox (strut height, then font-size height) see different floats
-    band = rng.random() < 0.3
-    if band:
-        width = Fraction(rng.randint(8, 16)) * fs
     for _ in range(rng.randint(1, 3)):
         clear = ''
         if band:
@@ -400,6 +396,16 @@ def gen_float_doc(rng):
                    f'width:{float(Fraction(rng.randint(1, 6 if band else 12)) * fs / 2)}px;'
                    f'height:{float(Fraction(rng.randint(1, 8)) * fs / 2)}px;margin:{rng.choice([0, 0, 2])}px;'
                    f'margin-top:{float(rng.choice([0, 0, 1, 3, 5]) * fs / 2)}px"></div>')
+    return floats
+
+
+def gen_float_doc(rng):
+    fs = Fraction(rng.choice([5, 8, 10, 10, 16]))
+    width = Fraction(rng.randint(6, 40)) * fs
+    band = rng.random() < 0.3
+    if band:
+        width = Fraction(rng.randint(8, 16)) * fs
+    floats = gen_floats_html(rng, fs, band)
     ws, wb, ow = gen_keywords(rng)
     spec = {'text': gen_paragraph(rng, ws, max_words=25, edges=True), 'ws': ws, 'wb': wb, 'ow': ow, 'fs': fs,
             'width': width, 'lh': rng.choice(['normal', ('px', fs * 2), ('num', Fraction(3, 2))]),
@@ -439,6 +445,59 @@ def render_float_doc(spec, html):
     return proto, sx.dumps(canon), shapes, geometry
 
 
+def gen_float_inline_doc(rng):
+    """1-3 floats, then a paragraph of nested inline boxes (every white-space value, glued boundaries)."""
+    fs = Fraction(rng.choice([5, 8, 10, 10, 16]))
+    width = Fraction(rng.randint(6, 30)) * fs
+    floats = gen_floats_html(rng, fs, False)
+    ws = rng.choice(INLINE_WS)
+    safe = rng.random() < 0.6
+    items = gen_inline_items(rng, rng.randint(2, 10), 2, fs, safe)
+    glue = rng.random() < 0.4
+    if rng.random() < 0.4:
+        strip_spacing(items)
+    attach_inline_spaces(items, rng, safe, ws, glue=glue)
+    spec = {'items': items, 'fs': fs, 'width': width, 'ws': ws,
+            'all': rng.choice(['start', 'start', 'left', 'center', 'end', 'right']),
+            'last': rng.choice(['auto', 'auto', 'auto', 'start', 'center', 'end']),
+            'indent': Fraction(rng.choice([0, 0, 0, 0, 10, -5]))}
+    css = (f'white-space:{ws};text-indent:{float(spec["indent"])}px;text-align-all:{spec["all"]};'
+           f'text-align-last:{spec["last"]}')
+    html = (f'<div style="width:{float(width)}px;font-size:{float(fs)}px">{floats}'
+            f'<p style="{css}">{inline_html(items)}</p></div>')
+    return spec, html
+
+
+def render_float_inline_doc(spec, html):
+    """-> (protocol line, impl, shapes, block geometry, nodes) | None when the paragraph is not one line box."""
+    from weasyprint.formatting_structure import boxes
+    try:
+        before, pages = ic.pipeline_trees(f'<style>{PAGE_CSS}</style>' + html, enc)
+    except Exception as exc:  # noqa: BLE001
+        return 'fipara-layout-failed', f'err:{type(exc).__name__}', [], None, None
+    if len(before) != 1 or before[0] is None:
+        return None
+    shapes = [[Fraction(b.position_x), Fraction(b.position_y), Fraction(b.margin_width()), Fraction(b.margin_height()),
+               b.style['float']]
+              for page in pages for b in page.descendants() if isinstance(b, boxes.BlockBox) and b.is_floated()]
+    (block, lines), = ic.laid_out_paragraphs(pages)
+    canon = [[snap(line.position_x), snap(line.position_y), snap(line.width), snap(line.height),
+              [ic.frag_wire(child, enc, snap) for child in line.children]] for line in lines]
+    geometry = (Fraction(block.content_box_x()), Fraction(block.content_box_y()), Fraction(block.width))
+    proto = sx.line('fipara', shapes, before[0], spec['ws'], 'normal', 'normal', spec['fs'], spec['fs'], geometry[0],
+                    geometry[2], spec['indent'], spec['all'], spec['last'], geometry[1])
+    return proto, sx.dumps(canon), shapes, geometry, before[0]
+
+
+def float_inline_violation(shapes, geometry, wire, spec):
+    """`float_violation` on the lines of a paragraph of nested inline boxes (wire: the canonical lines)."""
+    if wire.startswith('err:'):
+        return f'layout raised {wire[4:]}', None
+    canon = [[Fraction(lx), Fraction(ly), Fraction(lw), Fraction(lh), 'x' if frags else 'none']
+             for lx, ly, lw, lh, frags in sx.loads_line(wire)[0]]
+    return float_violation(shapes, geometry, canon, spec['ws'], spec['indent'], (spec['all'], spec['last']))
+
+
 def unexplained(violation, model_violation):
     """A violation of a known-finding class is excused only when the model of the unchanged code shows a violation of
     the same class on the same input; otherwise the finding does not explain it. -> what | None"""
@@ -454,6 +513,21 @@ def unexplained(violation, model_violation):
         return None
     return (f'{violation[0]} (not explained by known finding {violation[1]}: the model of the unchanged code does not '
             f'show it on this input)')
+
+
+def beyond_model(violation, model_violation):
+    """Nested inline boxes next to floats: the overflow findings of the unchanged code (inline-*, float-*) also make
+    lines overlap floats; a violation is reported only when the model of the unchanged code does not show the very
+    same one (same line, same coordinates) on the same input. -> what | None"""
+    if not violation:
+        return None
+    try:
+        same = model_violation()
+    except Exception:  # noqa: BLE001
+        same = None
+    if same and same[0] == violation[0]:
+        return None
+    return violation[0]
 
 
 def float_violation(shapes, geometry, canon, ws='normal', indent=0, align=('start', 'auto')):
@@ -507,7 +581,7 @@ def gen_preferred_html(rng):
     ws, wb, ow = gen_keywords(rng)
     fs = Fraction(rng.choice([5, 8, 10, 10, 16]))
     items = gen_inline_items(rng, rng.randint(1, 9), 2, fs, safe=False)
-    attach_inline_spaces(items, rng, safe=False)
+    attach_inline_spaces(items, rng, safe=False, ws=ws)
     r = rng.random()
     leaves = list(inline_leaves(items))
     if r < 0.2:
@@ -589,22 +663,23 @@ def render_vertical_lines(paragraphs):
     return out
 
 
-def vertical_safe(nodes):
-    """No `vertical-align: top | bottom` inline box holds another inline box (finding
-    vertical-align-top-bottom-subtree: their descendants are translated wrongly)."""
+def top_bottom_nested(nodes):
+    """Some `vertical-align: top | bottom` inline box holds another inline box (tag only: the shape of the repaired
+    finding vertical-align-top-bottom-subtree)."""
     for node in nodes:
         if node[0] == 'b':
-            va = node[1][2]
-            if va in ('top', 'bottom') and any(k[0] == 'b' for k in node[2]):
-                return False
-            if not vertical_safe(node[2]):
-                return False
-    return True
+            if node[1][2] in ('top', 'bottom') and any(k[0] == 'b' for k in node[2]):
+                return True
+            if top_bottom_nested(node[2]):
+                return True
+    return False
 
 
 def vertical_violation(style, nodes, impl):
-    """Clauses on one laid-out line: every box is one line-height high (margin box), the line is at least as high
-    as the block's line-height, and every box lies inside the line box (so consecutive lines cannot overlap).
+    """Clauses on one laid-out line: every box is aligned as its vertical-align says (CSS 2.1 10.8.1), is one
+    line-height high (margin box), the line is at least as high as the block's line-height, and every box lies inside
+    the line box (so consecutive lines cannot overlap) - for every nesting of top / bottom boxes (full strength since
+    fix 5152049).
     -> (what, finding_id) | None"""
     if impl.startswith('err:'):
         return f'line_box_verticality raised {impl[4:]}', None
@@ -623,8 +698,6 @@ def vertical_violation(style, nodes, impl):
     if lh + tol < used_line_height(style):
         return f'the line is {float(lh)} high, less than the line-height {float(used_line_height(style))} of its block', None
 
-    safe = vertical_safe(nodes)
-
     def strut(st):
         """(used line-height, baseline) of strut_layout."""
         fs, th, tb = Fraction(st[0]), Fraction(st[7]), Fraction(st[8])
@@ -632,6 +705,20 @@ def vertical_violation(style, nodes, impl):
         if fs == 0:
             return Fraction(0), Fraction(0)
         return lh_, tb + (lh_ - th) / 2
+
+    def subtree_extent(node, box):
+        """(top, bottom) of the aligned subtree of CSS 2.1 10.8.1: the margin boxes of the box and of its
+        descendants, nested top / bottom boxes (aligned subtrees of their own) excluded."""
+        st = node[1]
+        y, h, mt, mb = (Fraction(v) for v in box[1:5])
+        top, bottom = y, y + h + mt + mb + sum(Fraction(v) for v in st[3:7])
+        if node[0] == 'b':
+            for kid, kbox in zip(node[2], box[6]):
+                if kid[1][2] in ('top', 'bottom'):
+                    continue
+                ktop, kbottom = subtree_extent(kid, kbox)
+                top, bottom = min(top, ktop), max(bottom, kbottom)
+        return top, bottom
 
     def aligned(node, box, parent_baseline, parent_content_top, parent_st):
         """vertical-align of CSS 2.1 10.8.1, relative to the parent box"""
@@ -649,35 +736,34 @@ def vertical_violation(style, nodes, impl):
         elif va == 'text-bottom':
             got, want, what = y + mh, parent_content_top + pfs, "its bottom at the bottom of the parent's content area"
         elif va == 'top':
-            got, want, what = y, ly, 'its top at the top of the line box'
+            got, want, what = subtree_extent(node, box)[0], ly, 'the top of its aligned subtree at the top of the line box'
         elif va == 'bottom':
-            got, want, what = y + mh, ly + lh, 'its bottom at the bottom of the line box'
+            got, want, what = (subtree_extent(node, box)[1], ly + lh,
+                               'the bottom of its aligned subtree at the bottom of the line box')
         else:
             got, want, what = y + base, parent_baseline - Fraction(va[1]), f'its baseline {float(Fraction(va[1]))}px above the parent baseline'
         if abs(got - want) > tol:
             return f'vertical-align {va if isinstance(va, str) else "length"} puts {what}: expected {float(want)}, got {float(got)}'
         return None
 
-    def walk(node, box, parent_baseline, parent_content_top, parent_st, inside_tb):
+    def walk(node, box, parent_baseline, parent_content_top, parent_st):
         st = node[1]
         y, h, mt, mb = (Fraction(v) for v in box[1:5])
-        if safe and not (inside_tb and st[2] in ('top', 'bottom')):
-            what = aligned(node, box, parent_baseline, parent_content_top, parent_st)
-            if what:
-                return what, None
+        what = aligned(node, box, parent_baseline, parent_content_top, parent_st)
+        if what:
+            return what, None
         edges = sum(Fraction(v) for v in st[3:7])
         margin_height = h + mt + mb + edges
         if abs(margin_height - used_line_height(st)) > tol:
             return f'a box is {float(margin_height)} high (margin box), its line-height is {float(used_line_height(st))}', None
         if y + tol < ly or y + margin_height > ly + lh + tol:
-            finding = None if vertical_safe(nodes) else FINDING_TOP_BOTTOM
             return (f'a box spans y=[{float(y)}, {float(y + margin_height)}], outside its line box '
-                    f'[{float(ly)}, {float(ly + lh)}]: it overlaps the neighbouring line'), finding
+                    f'[{float(ly)}, {float(ly + lh)}]: it overlaps the neighbouring line'), None
         if node[0] == 'b':
             base = Fraction(box[5])
             content_top = y + mt + Fraction(st[3]) + Fraction(st[4])
             for kid, kbox in zip(node[2], box[6]):
-                r = walk(kid, kbox, y + base, content_top, st, inside_tb or st[2] in ('top', 'bottom'))
+                r = walk(kid, kbox, y + base, content_top, st)
                 if r:
                     return r
         return None
@@ -685,7 +771,7 @@ def vertical_violation(style, nodes, impl):
     line_baseline = ly + Fraction(lbase)
     line_content_top = line_baseline - line_strut_base + (line_lh - Fraction(style[0])) / 2
     for node, box in zip(nodes, boxes_):
-        r = walk(node, box, line_baseline, line_content_top, style, False)
+        r = walk(node, box, line_baseline, line_content_top, style)
         if r:
             return r
     return None
@@ -721,6 +807,13 @@ def gen_inline_items(rng, n, depth, unit, safe):
     return merged
 
 
+def strip_spacing(items):
+    for item in items:
+        if item[0] == 's':
+            item[1] = item[2] = Fraction(0)
+            strip_spacing(item[4])
+
+
 def inline_leaves(items):
     for item in items:
         if item[0] == 't':
@@ -729,9 +822,16 @@ def inline_leaves(items):
             yield from inline_leaves(item[4])
 
 
-def attach_inline_spaces(items, rng, safe):
-    """Give every leaf its text: the single space between two leaves goes to one of them."""
+def attach_inline_spaces(items, rng, safe, ws='normal', glue=None):
+    """Give every leaf its text: the single separator between two leaves goes to one of them.  Under a `white-space`
+    that preserves newlines a separator may be a newline (inside a leaf too); outside the safe sub-domain two
+    leaves may be glued (a word continues in the next box: no break opportunity at the boundary)."""
     protected = set()
+    newlines = ws in ('pre', 'pre-wrap', 'pre-line')
+    glue = (not safe) if glue is None else glue
+
+    def sep():
+        return '\n' if newlines and rng.random() < 0.12 else ' '
 
     def mark(nodes):
         for node in nodes:
@@ -742,12 +842,17 @@ def attach_inline_spaces(items, rng, safe):
     mark(items)
     leaves = list(inline_leaves(items))
     for leaf in leaves:
-        leaf.append(' '.join(leaf[1]))
+        text = leaf[1][0]
+        for word in leaf[1][1:]:
+            text += sep() + word
+        leaf.append(text)
     for i in range(len(leaves) - 1):
+        if glue and rng.random() < 0.15:
+            continue                      # glued: 'cc<b>ddd</b>'
         if id(leaves[i]) not in protected and rng.random() < 0.5:
-            leaves[i][2] += ' '
+            leaves[i][2] += sep()
         else:
-            leaves[i + 1][2] = ' ' + leaves[i + 1][2]
+            leaves[i + 1][2] = sep() + leaves[i + 1][2]
 
 
 def inline_html(items):
@@ -771,18 +876,27 @@ def inline_html(items):
     return out
 
 
-def gen_inline_spec(rng, safe):
+INLINE_WS = ['normal', 'normal', 'normal', 'normal', 'pre-line', 'pre-line', 'pre-wrap', 'nowrap', 'pre']
+
+
+def gen_inline_spec(rng, safe, ws=None):
     fs = Fraction(rng.choice([1, 2, 5, 8, 10, 10, 16, 20]))   # 1px glyphs: the 1px steps of _break_waiting_children matter
+    ws = ws or rng.choice(INLINE_WS)
     items = gen_inline_items(rng, rng.randint(2, 10), 2, fs, safe)
-    attach_inline_spaces(items, rng, safe)
+    glue = rng.random() < 0.5
+    if glue and rng.random() < 0.6:
+        strip_spacing(items)
+    attach_inline_spaces(items, rng, safe, ws, glue=glue)
     width = Fraction(rng.randint(4, 44), 2) * fs if rng.random() < 0.85 else Fraction(rng.randint(0, 8), 2) * fs
     return {'items': items, 'fs': fs, 'width': width, 'all': rng.choice(['start', 'start', 'left', 'center', 'end', 'right']),
-            'ml': Fraction(rng.randint(0, 40), 4), 'safe': safe}
+            'last': rng.choice(['auto', 'auto', 'auto', 'start', 'center', 'end']),
+            'ml': Fraction(rng.randint(0, 40), 4), 'safe': safe, 'ws': ws}
 
 
 def inline_para_html(spec):
-    css = (f'font-size:{float(spec["fs"])}px;width:{float(spec["width"])}px;text-align:{spec["all"]};'
-           f'margin-left:{float(spec["ml"])}px')
+    css = (f'font-size:{float(spec["fs"])}px;width:{float(spec["width"])}px;text-align-all:{spec["all"]};'
+           f'text-align-last:{spec.get("last", "auto")};margin-left:{float(spec["ml"])}px;'
+           f'white-space:{spec.get("ws", "normal")}')
     return f'<p style="{css}">{inline_html(spec["items"])}</p>'
 
 
@@ -808,8 +922,8 @@ def render_inline_paragraphs(specs):
 
 
 def inline_line(spec, nodes, cbx, y, width):
-    return sx.line('ipara', nodes, 'normal', 'normal', 'normal', spec['fs'], spec['fs'], Fraction(cbx), Fraction(width),
-                   Fraction(0), spec['all'], 'auto', Fraction(y))
+    return sx.line('ipara', nodes, spec.get('ws', 'normal'), 'normal', 'normal', spec['fs'], spec['fs'], Fraction(cbx),
+                   Fraction(width), Fraction(0), spec['all'], spec.get('last', 'auto'), Fraction(y))
 
 
 # the clauses on nested inline boxes (judge / search)
@@ -860,11 +974,61 @@ def nodes_safe(nodes):
     return True
 
 
+def frag_empty(f):
+    """An inline box fragment with nothing in it (its content went to the next line)."""
+    return f[0] == 'b' and all(frag_empty(k) for k in f[5])
+
+
+def node_leaves(nodes):
+    for node in nodes:
+        if node[0] == 't':
+            yield dec(node[1])
+        else:
+            yield from node_leaves(node[4])
+
+
+def has_glue(nodes):
+    """Two consecutive text leaves without white space at their boundary (a word continues in the next box)."""
+    leaves = [t for t in node_leaves(nodes) if t]
+    return any(a[-1] not in ' \n' and b[0] not in ' \n' for a, b in zip(leaves, leaves[1:]))
+
+
+def no_spacing(nodes):
+    return all(n[0] == 't' or (Fraction(n[1]) == 0 and Fraction(n[2]) == 0 and no_spacing(n[4])) for n in nodes)
+
+
+def greedy_domain(nodes):
+    """The sub-domain in which the unchanged code keeps breakable lines inside the block (see the findings
+    inline-*): no start spacing, end spacing only on boxes ending with a text leaf, and - when a word continues in
+    the next box - no spacing at all (an end spacing followed by a glued box is the same defect as
+    inline-end-spacing-overflow: the spacing is not part of any overflow test)."""
+    return nodes_safe(nodes) and (no_spacing(nodes) or not has_glue(nodes))
+
+
+def boundary_opportunity(frags):
+    """Some inline box fragment of the line has a break opportunity at the boundary between two of its children
+    (`<span><i>rr </i>anin</span>`): the shape of finding waiting-box-boundary-opportunity-unused."""
+    for f in frags:
+        if f[0] != 'b':
+            continue
+        texts = [frag_text(k) for k in f[5]]
+        texts = [t for t in texts if t]
+        if any(a[-1] in ' \n' and b[0] not in ' \n' for a, b in zip(texts, texts[1:])):
+            return True
+        if boundary_opportunity(f[5]):
+            return True
+    return False
+
+
 def closing_spacing(frags):
-    """Sum of the end spacings of the boxes that end at the end of the line, and the last text fragment."""
+    """Sum of the end spacings of the boxes that end at the end of the line, and the last text fragment (empty
+    fragments of boxes whose content starts on the next line are skipped)."""
     total, last_text = Fraction(0), None
     while frags:
-        f = frags[-1]
+        rest = [f for f in frags if not (frag_empty(f) and Fraction(f[4]) == 0 and Fraction(f[3]) == 0)]
+        if not rest:
+            break
+        f = rest[-1]
         if f[0] == 't':
             last_text = dec(f[1])
             break
@@ -873,30 +1037,88 @@ def closing_spacing(frags):
     return total, last_text
 
 
-def inline_violation(nodes, width, canon):
-    """Clauses of C09 on the lines of a paragraph of nested inline boxes. -> (what, finding_id) | None"""
+def forced_breaks(nodes, canon):
+    """Per line: is it followed by a preserved line break (or is it the last line)?  The non-space characters of
+    the lines are found again, in order, in the text of the tree."""
+    full = ''.join(frag_text_node(n) for n in nodes)
+    pos, ends = 0, []
+    for line in canon:
+        for c in ''.join(frag_text(f) for f in line[4]):
+            if c in ' \n':
+                continue
+            while pos < len(full) and full[pos] != c:
+                pos += 1
+            pos += 1
+        ends.append(pos)
+    out = []
+    for i, end in enumerate(ends):
+        nxt = end
+        while nxt < len(full) and full[nxt] == ' ':
+            nxt += 1
+        out.append(i == len(ends) - 1 or nxt >= len(full) or full[nxt] == '\n')
+    return out
+
+
+def inline_violations(nodes, width, canon, ws='normal', place=None):
+    """Clauses of C09 on the lines of a paragraph of nested inline boxes: every violation, in line order.
+    `place` = (content-box x, text-align-all, text-align-last) adds the alignment clause (ltr).
+    -> [(what, finding_id | None)]"""
     width = Fraction(width)
     if isinstance(canon, str):
-        return f'layout raised {canon[4:]}', None
+        return [(f'layout raised {canon[4:]}', None)]
+    out = []
+    if place is not None and canon:
+        cbx, align_all, align_last = Fraction(place[0]), place[1], place[2]
+        for i, ((lx, ly, lw, lh, frags), forced) in enumerate(zip(canon, forced_breaks(nodes, canon))):
+            lx, lw = Fraction(lx), Fraction(lw)
+            if not frags or Fraction(lh) == 0:
+                continue
+            align = resolve_align({'all': align_all, 'last': align_last, 'rtl': False}, forced)
+            free = width - lw
+            want = cbx + (0 if free <= 0 else {'left': 0, 'right': free, 'center': free / 2, 'justify': 0}[align])
+            if lx != want:
+                # aligned like a last line without being one: known finding
+                # preserved-line-break-flag-stale-after-rebreak (excused only where the model shows the same)
+                as_last = resolve_align({'all': align_all, 'last': align_last, 'rtl': False}, True)
+                alt = cbx + (0 if free <= 0 else {'left': 0, 'right': free, 'center': free / 2, 'justify': 0}[as_last])
+                finding = FINDING_STALE_PRESERVED if (not forced and lx == alt) else None
+                out.append((f'line {i} starts at x={float(lx)}, text-align {align} '
+                            f'({"last line or forced break" if forced else "not a last line"}) of a {float(lw)} wide line in '
+                            f'[{float(cbx)}, {float(cbx + width)}] puts it at {float(want)}', finding))
     y = None
     for i, (lx, ly, lw, lh, frags) in enumerate(canon):
         lx, ly, lw, lh = Fraction(lx), Fraction(ly), Fraction(lw), Fraction(lh)
         if y is not None and ly != y:
-            return f'line {i} starts at y={float(ly)}, previous line ends at {float(y)}', None
+            out.append((f'line {i} starts at y={float(ly)}, previous line ends at {float(y)}', None))
         y = ly + lh
         what = extents_violation(frags, lx)
         if what:
-            # outside the safe sub-domain a too wide inline box is the known finding inline-box-width-stale
-            stale = 'children add up' in what and not nodes_safe(nodes)
-            return f'line {i}: {what}', (FINDING_STALE_WIDTH if stale else None)
-        if frags and lw != sum(frag_mw(f) for f in frags):
-            return f'line {i}: line width {float(lw)} is not the sum of its boxes', None
+            # a too wide inline box is the known finding inline-box-width-stale (excused only where the model of the
+            # unchanged code shows the same on the same input, see `unexplained_all`)
+            stale = 'children add up' in what
+            out.append((f'line {i}: {what}', FINDING_STALE_WIDTH if stale else None))
+        elif frags and lw != sum(frag_mw(f) for f in frags):
+            out.append((f'line {i}: line width {float(lw)} is not the sum of its boxes', None))
     want = ''.join(''.join(frag_text_node(n) for n in nodes).split())
     got = ''.join(''.join(''.join(frag_text(f) for f in line[4]) for line in canon).split())
     if want != got:
-        return f'characters lost or duplicated: lines carry {got[:60]!r}, text is {want[:60]!r}', None
-    if not nodes_safe(nodes):
-        return None
+        out.append((f'characters lost or duplicated: lines carry {got[:60]!r}, text is {want[:60]!r}', None))
+        return out
+    if ws not in WRAP:
+        # nowrap / pre: a line ends only at a preserved line break
+        full = ''.join(frag_text_node(n) for n in nodes)
+        want_lines = [''.join(part.split()) for part in full.split('\n')]
+        got_lines = [''.join(''.join(frag_text(f) for f in line[4]).split()) for line in canon]
+        while want_lines and want_lines[-1] == '':
+            want_lines.pop()
+        while got_lines and got_lines[-1] == '':
+            got_lines.pop()
+        if got_lines != want_lines:
+            out.append((f'white-space:{ws}: lines {got_lines[:8]!r} are not the text between preserved line breaks '
+                        f'{want_lines[:8]!r}', None))
+        return out
+    if not greedy_domain(nodes) or ws not in COLLAPSE:
+        return out                  # preserved spaces at the end of a line hang (pre-wrap)
     for i, (lx, ly, lw, lh, frags) in enumerate(canon):
         lw = Fraction(lw)
         text = ''.join(frag_text(f) for f in frags).strip(' ')
@@ -904,10 +1126,40 @@ def inline_violation(nodes, width, canon):
             closing, last_text = closing_spacing(frags)
             if last_text is not None and ' ' not in last_text.strip(' ') and lw - closing <= width:
                 # known finding inline-end-spacing-overflow: the last word is alone in its text box
-                return (f'line {i} {text!r} is {float(lw)} wide in {float(width)}: the end spacing of the box is '
-                        f'not reserved for an unbreakable last child'), FINDING_END_SPACING
-            return (f'line {i} {text!r} is {float(lw)} wide, the block is {float(width)} wide, and the line could '
-                    f'break at a space'), None
+                out.append((f'line {i} {text!r} is {float(lw)} wide in {float(width)}: the end spacing of the box is '
+                            f'not reserved for an unbreakable last child', FINDING_END_SPACING))
+            else:
+                out.append((f'line {i} {text!r} is {float(lw)} wide, the block is {float(width)} wide, and the line '
+                            f'could break at a space', FINDING_BOUNDARY if boundary_opportunity(frags) else None))
+    return out
+
+
+def inline_violation(nodes, width, canon, ws='normal'):
+    """The first violation that belongs to no known-finding class, else the first one. -> (what, finding_id) | None"""
+    found = inline_violations(nodes, width, canon, ws)
+    for v in found:
+        if v[1] is None:
+            return v
+    return found[0] if found else None
+
+
+def unexplained_all(violations, model_violations):
+    """Several violations on one input: one that belongs to no known-finding class is reported; one of a
+    known-finding class is excused only when the model of the unchanged code shows the very same violation on the
+    same input (same line, same numbers). -> what | None"""
+    for what, finding in violations:
+        if finding is None:
+            return what
+    if not violations:
+        return None
+    try:
+        same = model_violations()
+    except Exception:  # noqa: BLE001  (the model output is an error outcome)
+        same = []
+    for v in violations:
+        if v not in same:
+            return (f'{v[0]} (not explained by known finding {v[1]}: the model of the unchanged code does not show it '
+                    f'on this input)')
     return None
 
 
@@ -950,11 +1202,18 @@ def gen_tree(rng, depth, x0):
             sub, w = gen_tree(rng, depth - 1, x)
             kids.append(['i', x, w, rng.random() < 0.3, sub])
             x += w
-        elif r < 0.9:
-            kids.append(['a', x, True])
-            x += rng.randint(0, 30)
         else:
-            kids.append(['a', x, False])
+            # any other box: an atomic inline-level box (in flow) or an out-of-flow box; when it is a ParentBox it
+            # may hold text with spaces of its own (an inline-block holding 'cc dd'), which are not the line's
+            in_flow = r < 0.9
+            cls = rng.choice(ATOM_CLASSES_IN_FLOW if in_flow else ATOM_CLASSES_OUT_OF_FLOW)
+            inner = []
+            if cls != 'replaced' and rng.random() < 0.6:
+                inner_kids, inner_w = gen_tree(rng, 0, x)
+                inner = [['i', x, inner_w, False, inner_kids]]
+            kids.append(['a', x, in_flow, inner, cls])
+            if in_flow:
+                x += rng.randint(0, 30)
     return kids, x - x0
 
 
@@ -974,13 +1233,27 @@ def build_real(node, style_text, ws):
         box = boxes.InlineBox('span', style, None, [build_real(k, style_text, ws) for k in kids])
         box.position_x, box.position_y, box.width = x, 0, w
         return box
-    _, x, in_flow = node
-    if in_flow:
-        box = boxes.InlineBlockBox('span', ic.make_style(display=('inline', 'flow-root')), None, [])
+    _, x, in_flow, inner, cls = node
+    children = [build_real(k, style_text, ws) for k in inner]
+    if cls == 'inline-block':
+        box = boxes.InlineBlockBox('span', ic.make_style(display=('inline', 'flow-root')), None, children)
+    elif cls == 'inline-flex':
+        box = boxes.InlineFlexBox('span', ic.make_style(display=('inline', 'flex')), None, children)
+    elif cls == 'inline-grid':
+        box = boxes.InlineGridBox('span', ic.make_style(display=('inline', 'grid')), None, children)
+    elif cls == 'replaced':
+        box = boxes.InlineReplacedBox('img', ic.make_style(), None, None)
+    elif cls == 'float':
+        box = boxes.BlockBox('span', ic.make_style(float='left'), None, children)
     else:
-        box = boxes.BlockBox('span', ic.make_style(float='left'), None, [])
+        box = boxes.BlockBox('span', ic.make_style(position='absolute'), None, children)
+    assert box.is_in_normal_flow() == in_flow
     box.position_x, box.position_y = x, 0
     return box
+
+
+ATOM_CLASSES_IN_FLOW = ['inline-block', 'inline-block', 'inline-flex', 'inline-grid', 'replaced']
+ATOM_CLASSES_OUT_OF_FLOW = ['float', 'absolute']
 
 
 def expandable_spaces(text):
@@ -994,7 +1267,7 @@ def read_real(box):
         return ['t', box.position_x, box.width, expandable_spaces(box.text)]
     if isinstance(box, (boxes.LineBox, boxes.InlineBox)):
         return ['i', box.position_x, box.width, box.style['direction'] == 'rtl', [read_real(c) for c in box.children]]
-    return ['a', box.position_x, box.is_in_normal_flow()]
+    return ['a', box.position_x, box.is_in_normal_flow(), [read_real(c) for c in getattr(box, 'children', ())]]
 
 
 def real_align(spec):
@@ -1012,8 +1285,17 @@ def real_align(spec):
     return docs.outcome(call)
 
 
+def wire_kid(k):
+    """the model's view of a node: the class of an atom is not on the wire (the model has one case for all of them)"""
+    if k[0] == 'i':
+        return ['i', k[1], k[2], k[3], [wire_kid(x) for x in k[4]]]
+    if k[0] == 'a':
+        return ['a', k[1], k[2], [wire_kid(x) for x in k[3]]]
+    return k
+
+
 def align_line(spec):
-    tree = ['i', spec['x'], spec['width'], spec['rtl'], spec['kids']]
+    tree = ['i', spec['x'], spec['width'], spec['rtl'], [wire_kid(k) for k in spec['kids']]]
     return sx.line('align', spec['all'], spec['last'], spec['ws'], spec['rtl'], spec['lastline'], spec['width'],
                    spec['avail'], tree)
 
@@ -1155,7 +1437,7 @@ def break_opportunities(text):
     return [i for i in range(1, len(text)) if text[i - 1] == ' ' and text[i] not in ' \n']
 
 
-def first_fit(para, fs, width, wraps, can_char, hyphen_quirk=False, negw_quirk=False):
+def first_fit(para, fs, width, wraps, can_char, hyphen_quirk=False):
     """Reference first-fit breaker knowing only the glyph advance, on a canonical paragraph (no newline).
 
     -> offset where the next line starts (len(para) = everything on this line).
@@ -1168,8 +1450,6 @@ def first_fit(para, fs, width, wraps, can_char, hyphen_quirk=False, negw_quirk=F
     if fitting:
         return fitting[-1]
     if can_char and fs > 0:
-        if negw_quirk and width * 1024 <= -1:
-            return len(para)           # known finding: a negative width makes the WRAP_CHAR layout unconstrained
         k = int(width / fs) if width > 0 else 0
         if hyphen_quirk:
             k -= 1
@@ -1177,7 +1457,7 @@ def first_fit(para, fs, width, wraps, can_char, hyphen_quirk=False, negw_quirk=F
     return opps[0]
 
 
-def expected_lines(text, ws, fs, widths, can_char, hyphen_quirk=False, negw_quirk=False):
+def expected_lines(text, ws, fs, widths, can_char, hyphen_quirk=False):
     """Lines of a canonical text: [(content, ends_with_forced_break)], `widths(i)` = available width of line i."""
     collapse = ws in COLLAPSE
     wraps = ws in WRAP
@@ -1203,7 +1483,7 @@ def expected_lines(text, ws, fs, widths, can_char, hyphen_quirk=False, negw_quir
                 if pos >= len(para):
                     break
             rest = para[pos:]
-            nxt = first_fit(rest, fs, widths(len(out)), wraps, can_char, hyphen_quirk, negw_quirk)
+            nxt = first_fit(rest, fs, widths(len(out)), wraps, can_char, hyphen_quirk)
             out.append((rest[:nxt], forced_after and pos + nxt >= len(para)))
             pos += nxt
     return out
@@ -1260,8 +1540,6 @@ def sfl_violation(meta, impl):
             alt = first_fit(para, fs, avail, wraps, can_char, hyphen_quirk=True)
             if (got_content, resume) == (para[:alt].rstrip(' '), alt if alt != len(para) else want_resume):
                 finding = FINDING_HYPHEN
-        if can_char and avail * 1024 <= -1 and got_content == para.rstrip(' '):
-            finding = FINDING_NEGW
         return (f'first line is {got_content!r} (next line at {resume}), first-fit in {float(avail)} at font-size '
                 f'{float(fs)} gives {want_content!r} (next line at {want_resume})'), finding
     return None
@@ -1321,11 +1599,6 @@ def para_violation(spec, text, cbx, y0, width, canon):
             alt = expected_lines(text, spec['ws'], fs, widths, can_char, hyphen_quirk=True)
             if [t.rstrip(' ') for t in got_lines] == [t.rstrip(' ') for t, _ in alt]:
                 finding = FINDING_HYPHEN
-        if can_char and widths(0) * 1024 <= -1:
-            alt = expected_lines(text, spec['ws'], fs, widths, can_char, negw_quirk=True,
-                                 hyphen_quirk=(spec['wb'] == 'break-all' and spec['ow'] == 'normal'))
-            if [t.rstrip(' ') for t in got_lines] == [t.rstrip(' ') for t, _ in alt]:
-                finding = FINDING_NEGW
         return (f'lines {got_lines[:12]!r} differ from the first-fit lines {[t for t, _ in want_lines][:12]!r} '
                 f'(width {float(width)}, font-size {float(fs)}, text-indent {float(indent)})'), finding
     # geometry of each line: height, extents, alignment
@@ -1392,6 +1665,17 @@ def align_violation(spec, impl):
     return None
 
 
+def atom_spaces(kids):
+    """Spaces inside atomic / out-of-flow boxes (never expandable spaces of the line)."""
+    total = 0
+    for k in kids:
+        if k[0] == 'i':
+            total += atom_spaces(k[4])
+        elif k[0] == 'a':
+            total += count_spec_spaces(k[3]) + atom_spaces(k[3])
+    return total
+
+
 def count_spec_spaces(kids):
     total = 0
     for k in kids:
@@ -1431,12 +1715,19 @@ class C09(PropCheck):
         'inline_min_content_width / inline_max_content_width / trailing_whitespace_size / adjust for text and inline '
         'boxes with px spacing (Model/InlinePreferred); get_next_linebox with excluded shapes for a line box holding one '
         'text box, ltr (Model/LineFloats, on C11\'s avoid_collisions model imported unchanged)',
+        'modelled, not verified (round 3): split_inline_box / _break_waiting_children / can_break_inside under every '
+        'white-space value (no opportunity between children under pre / nowrap, preserved line breaks inside nested '
+        'boxes); get_next_linebox with excluded shapes for nested inline boxes (Model/LineFloatsInline = '
+        'inline_min_content_width with the resume skip_stack + avoid_collisions + split_inline_box); '
+        'count_expandable_spaces / add_word_spacing on atomic and out-of-flow boxes that hold text of their own',
     )
     assumptions = (
         'no soft hyphen in the texts; dictionary hyphenation only in the hyphenation section (lang=en)',
-        'document level: text boxes and nested inline boxes, vertical-align of every kind in the line-vertical '
-        'section only, floats only before a paragraph of one text box (float-lines section), no float inside a line; '
-        'boundaries between boxes are at spaces',
+        'document level: text boxes and nested inline boxes under every white-space value (boundaries between boxes at '
+        'spaces, preserved newlines or inside a word), vertical-align of every kind in the line-vertical section only, '
+        'floats only before the paragraph (one text box: float-lines; nested inline boxes: float-inline-lines), no '
+        'float and no atomic inline inside a rendered line (atomic / out-of-flow boxes with children only in the '
+        'text-align section, on real box classes)',
     )
 
     # ----- correspondence
@@ -1444,6 +1735,7 @@ class C09(PropCheck):
     def correspondence(self, run):
         docs.quiet()
         ic.env()
+        self._sec_regressions(run)
         self._sec_pango(run)
         self._sec_sfl(run)
         self._sec_stb(run)
@@ -1455,6 +1747,33 @@ class C09(PropCheck):
         self._sec_vertical(run)
         self._sec_preferred(run)
         self._sec_floats(run)
+        self._sec_float_inline(run)
+
+    def _sec_regressions(self, run):
+        sec = run.section(
+            'regressions',
+            'corpus first: the inputs of the repaired findings (negative-width-unbroken, '
+            'vertical-align-top-bottom-subtree), deterministic, compared with the model through the protocol of the '
+            'section named in meta["as"] and judged at full strength (a fixed: entry suppresses nothing); '
+            'non-trivial = every case')
+        spec = regression_negative_width_spec()
+        for spec, text, block, canon, _ in render_paragraphs([spec]):
+            impl = canon if isinstance(canon, str) else sx.dumps(canon)
+            cbx, y0, width = block.content_box_x(), block.content_box_y(), block.width
+            sec.add(para_line(spec, text, cbx, y0, width), impl,
+                    meta={'as': 'paragraph-doc', 'spec': spec_json(spec), 'text': text, 'cbx': str(Fraction(cbx)),
+                          'y': str(Fraction(y0)), 'width': str(Fraction(width)), 'html': para_html(spec)},
+                    nontrivial=True, tags=['negative-width-unbroken'])
+        for ow, wb in (('anywhere', 'normal'), ('break-word', 'normal'), ('normal', 'break-all')):
+            args = ('aa b cc', 'normal', wb, ow, Fraction(10), Fraction(-10), True, False)
+            impl = real_sfl(*args)
+            sec.add(sx.line('sfl', True, enc(args[0]), *args[1:5], wire_width(args[5]), *args[6:]), impl,
+                    meta={'as': 'split-first-line', 'text': args[0], 'ws': 'normal', 'wb': wb, 'ow': ow, 'fs': '10',
+                          'width': '-10', 'ils': True, 'minimum': False},
+                    nontrivial=True, tags=['negative-width-unbroken'])
+        for html, index, proto, impl in render_vertical_lines(REGRESSION_VERTICAL):
+            sec.add(proto, impl, meta={'as': 'line-vertical', 'html': html, 'line': index, 'vertical': True},
+                    nontrivial=True, tags=['vertical-align-top-bottom-subtree'])
 
     def _sec_pango(self, run):
         sec = run.section(
@@ -1617,7 +1936,8 @@ class C09(PropCheck):
             impl = real_align(spec)
             align = spec['last'] if spec['lastline'] and spec['last'] != 'auto' else spec['all']
             sec.add(align_line(spec), impl, meta={'spec': spec_json(spec)}, nontrivial=width < avail,
-                    tags=[align, 'rtl' if spec['rtl'] else 'ltr'])
+                    tags=[align, 'rtl' if spec['rtl'] else 'ltr'] +
+                    (['atom-holding-spaces'] if atom_spaces(kids) else []))
 
     def _sec_para(self, run):
         sec = run.section(
@@ -1689,6 +2009,40 @@ class C09(PropCheck):
                     'wider-than-gap', 'text-indent', 'layout-error']
         run.extra['float_lines_cases_never_hit'] = [t for t in expected if not sec.tags.get(t)]
 
+    def _sec_float_inline(self, run):
+        sec = run.section(
+            'float-inline-lines',
+            'rendered paragraphs of nested inline boxes (every white-space value, glued boundaries, spacing) after 1-3 '
+            'left / right floats: per line and per box x, y, width, text vs the model of get_next_linebox with excluded '
+            'shapes composed of inline_min_content_width(skip_stack, first_line) + avoid_collisions + split_inline_box '
+            '(Model/LineFloatsInline); non-trivial = some line is beside a float')
+        rng = run.rng
+        for _ in range(run.n(250, 4000)):
+            spec, html = gen_float_inline_doc(rng)
+            rendered = render_float_inline_doc(spec, html)
+            if rendered is None:
+                continue
+            proto, impl, shapes, geometry, nodes = rendered
+            beside, tags = False, []
+            if geometry is not None:
+                lines = sx.loads_line(impl)[0]
+                for lx, ly, lw, lh, frags in lines:
+                    ly, lh = Fraction(ly), Fraction(lh)
+                    if any(s[1] < ly + lh and ly < s[1] + s[3] for s in shapes):
+                        beside = True
+                tags.append(f'lines{min(len(lines), 6)}')
+                # a line beside a float that resumes inside a nested inline box: the resume position goes down
+                # through inline_line_widths
+                if len(lines) > 1 and any(n[0] == 'b' for n in sx.loads_line(sx.dumps(nodes))[0]):
+                    tags.append('resumes-in-nested-box')
+            else:
+                tags.append('layout-error')
+            if spec['indent'] != 0:
+                tags.append('text-indent')
+            sec.add(proto, impl, meta={'html': html, 'float_inline': True, 'spec': float_inline_json(spec),
+                                       'inline_html': inline_para_html(dict(spec, ml=Fraction(0)))},
+                    nontrivial=beside, tags=[spec['ws'], 'beside' if beside else 'below'] + tags)
+
     def _sec_preferred(self, run):
         from weasyprint.layout.preferred import (
             inline_max_content_width, inline_min_content_width, trailing_whitespace_size)
@@ -1744,7 +2098,7 @@ class C09(PropCheck):
                 aligns = sorted({a for a in vertical_aligns(nodes)})
                 sec.add(proto, impl, meta={'html': html, 'line': index, 'vertical': True},
                         nontrivial=any(n[0] == 'b' for n in nodes),
-                        tags=[f'va-{a}' for a in aligns] + ['safe' if vertical_safe(nodes) else 'top-bottom-nested'])
+                        tags=[f'va-{a}' for a in aligns] + ['top-bottom-nested' if top_bottom_nested(nodes) else 'plain'])
 
     def _sec_hyphen(self, run):
         sec = run.section(
@@ -1790,16 +2144,20 @@ class C09(PropCheck):
                 failed = isinstance(canon, str)
                 sec.add(inline_line(spec, nodes, cbx, y0, width), canon if failed else sx.dumps(canon),
                         meta={'nodes': sx.dumps(nodes), 'width': str(Fraction(width)), 'html': inline_para_html(spec),
-                              'inline': True},
+                              'inline': True, 'ws': spec['ws'],
+                              'place': [str(Fraction(cbx)), spec['all'], spec.get('last', 'auto')]},
                         nontrivial=not failed and len(canon) >= 2,
                         tags=['safe' if nodes_safe(nodes) else 'general', canon if failed else f'lines{min(len(canon), 6)}',
-                              f'align-{spec["all"]}'])
+                              f'align-{spec["all"]}', spec['ws']] + (['glued'] if has_glue(nodes) else []) +
+                        (['greedy-judged'] if greedy_domain(nodes) else []))
         run.extra['inline_paragraphs_skipped'] = skipped
 
     # ----- judge / search / replay
 
     def judge(self, d):
         meta = d.get('meta') or {}
+        if d['section'] == 'regressions' and meta.get('as'):
+            d = dict(d, section=meta['as'])
         if d['section'] == 'split-first-line':
             v = sfl_violation(meta, d['impl'])
             return v[0] if v and v[1] is None else None
@@ -1818,6 +2176,15 @@ class C09(PropCheck):
             v = float_violation(shapes, geometry, canon_from_wire(d['impl']), parsed[3], parsed[10], parsed[11:13])
             return unexplained(v, lambda: float_violation(shapes, geometry, canon_from_wire(d['model']), parsed[3],
                                                           parsed[10], parsed[11:13]))
+        if d['section'] == 'float-inline-lines':
+            if d['impl'].startswith('err:'):
+                return f'layout raised {d["impl"][4:]} on {meta.get("html")}'
+            parsed = sx.loads_line(d['line'])
+            shapes = [[Fraction(a), Fraction(b), Fraction(c), Fraction(e), side] for a, b, c, e, side in parsed[1]]
+            geometry = (Fraction(parsed[8]), Fraction(parsed[13]), Fraction(parsed[9]))
+            spec = meta['spec']
+            return beyond_model(float_inline_violation(shapes, geometry, d['impl'], spec),
+                                lambda: float_inline_violation(shapes, geometry, d['model'], spec))
         if d['section'] == 'line-vertical':
             if d['impl'].startswith('err:'):
                 return f'layout raised {d["impl"][4:]} on {meta.get("html")}'
@@ -1834,9 +2201,12 @@ class C09(PropCheck):
         if d['section'] == 'inline-doc':
             if d['impl'].startswith('err:'):
                 return f'layout raised {d["impl"][4:]}'
-            v = inline_violation(sx.loads_line(meta['nodes'])[0], Fraction(meta['width']),
-                                 inline_canon_from_wire(d['impl']))
-            return v[0] if v and v[1] is None else None
+            place = meta.get('place')
+            vs = inline_violations(sx.loads_line(meta['nodes'])[0], Fraction(meta['width']),
+                                   inline_canon_from_wire(d['impl']), meta.get('ws', 'normal'), place)
+            return unexplained_all(vs, lambda: inline_violations(
+                sx.loads_line(meta['nodes'])[0], Fraction(meta['width']), inline_canon_from_wire(d['model']),
+                meta.get('ws', 'normal'), place))
         if d['section'] == 'paragraph-doc':
             spec = spec_unjson(meta['spec'])
             if d['impl'].startswith('err:'):
@@ -1913,19 +2283,57 @@ class C09(PropCheck):
                     continue
                 if not isinstance(canon, str):
                     canon = sx.loads_line(sx.dumps(canon))[0]
-                v = inline_violation(sx.loads_line(sx.dumps(nodes))[0], Fraction(block.width), canon)
+                place = (Fraction(block.content_box_x()), spec['all'], spec.get('last', 'auto'))
+                vs = inline_violations(sx.loads_line(sx.dumps(nodes))[0], Fraction(block.width), canon,
+                                       spec.get('ws', 'normal'), place)
+                v = None
+                if vs:
+                    # a known-finding class is excused only when the model of the unchanged code shows the same
+                    proto = inline_line(spec, nodes, block.content_box_x(), block.content_box_y(), block.width)
+                    what = unexplained_all(vs, lambda: inline_violations(
+                        sx.loads_line(sx.dumps(nodes))[0], Fraction(block.width),
+                        inline_canon_from_wire(self.model_output(proto)), spec.get('ws', 'normal'), place))
+                    v = (what, None) if what else vs[0]
                 if v:
                     out.append({'what': v[0], 'finding_id': v[1],
-                                'input': {'html': inline_para_html(spec), 'inline': True, 'nodes': sx.dumps(nodes)},
+                                'input': {'html': inline_para_html(spec), 'inline': True, 'nodes': sx.dumps(nodes),
+                                          'ws': spec.get('ws', 'normal')},
                                 'signature': f'inline:{v[0][:40]}'})
             return out
 
+        # nested inline boxes: the disagreeing paragraphs themselves, in the neighbouring widths
+        inline_seeds = []
+        for f in failures:
+            meta = f['detail'].get('meta') if f['kind'] == 'correspondence' else None
+            if isinstance(meta, dict) and (meta.get('inline') or meta.get('inline_html')):
+                inline_seeds.append(meta.get('inline_html') or meta['html'])
+        inline_broken = bool(inline_seeds) or any(
+            f['kind'] == 'correspondence' and f.get('name') in ('inline-doc', 'float-inline-lines', 'preferred-widths')
+            for f in failures)
+        for html in inline_seeds[:12]:
+            if time.time() > deadline or len([v for v in found if not v.get('finding_id')]) >= 3:
+                break
+            for variant in inline_width_variants(html):
+                run.search_stats['evaluations'] += 1
+                try:
+                    vs, model_violations = inline_replay({'html': variant}, self.model_output)
+                except Exception:  # noqa: BLE001
+                    continue
+                what = unexplained_all(vs, model_violations)
+                if what:
+                    sig = f'inline:{what[:40]}'
+                    if sig not in seen:
+                        seen.add(sig)
+                        found.append({'what': what, 'input': {'html': variant, 'inline': True}, 'signature': sig})
+                    break
+
         # function level on the disagreeing inputs, then fresh batches
         while time.time() < deadline and len([v for v in found if not v.get('finding_id')]) < 3:
-            for v in try_inline([gen_inline_spec(rng, safe=True) for _ in range(12)]):
-                if v['signature'] not in seen:
-                    seen.add(v['signature'])
-                    found.append(v)
+            for _ in range(5 if inline_broken else 1):
+                for v in try_inline([gen_inline_spec(rng, safe=True) for _ in range(12)]):
+                    if v['signature'] not in seen:
+                        seen.add(v['signature'])
+                        found.append(v)
             batch = [gen_para_spec(rng, canon=True) for _ in range(12)]
             for v in try_specs(batch):
                 if v['signature'] not in seen:
@@ -1953,10 +2361,11 @@ class C09(PropCheck):
         return lean.run_driver(self.driver, [proto])[0]
 
     def finding_replays(self):
-        return {FINDING_HYPHEN: finding_break_all_hyphen, FINDING_NEGW: finding_negative_width,
+        return {FINDING_HYPHEN: finding_break_all_hyphen,
                 FINDING_START_SPACING: finding_start_spacing, FINDING_END_SPACING: finding_end_spacing,
                 FINDING_END_RESERVED: finding_end_reserved, FINDING_STALE_WIDTH: finding_stale_width,
-                FINDING_TOP_BOTTOM: finding_top_bottom, FINDING_FLOAT_INDENT: finding_float_indent,
+                FINDING_FLOAT_INDENT: finding_float_indent, FINDING_BOUNDARY: finding_boundary,
+                FINDING_STALE_PRESERVED: finding_stale_preserved,
                 FINDING_SOFT_HYPHEN: finding_soft_hyphen, FINDING_FLOAT_BAND: finding_float_band}
 
     def replay(self, data):
@@ -1971,6 +2380,14 @@ class C09(PropCheck):
             return v[0] if v else None
         meta = inp.get('meta') or {}
         section = inp.get('section')
+        if meta.get('float_inline'):
+            spec = float_inline_unjson(meta['spec'])
+            rendered = render_float_inline_doc(spec, meta['html'])
+            if rendered is None:
+                return None
+            proto, impl, shapes, geometry, _ = rendered
+            return beyond_model(float_inline_violation(shapes, geometry, impl, spec),
+                                lambda: float_inline_violation(shapes, geometry, self.model_output(proto), spec))
         if meta.get('float'):
             rendered = render_float_doc(spec_unjson(meta['spec']), meta['html'])
             if rendered is None:
@@ -1997,8 +2414,8 @@ class C09(PropCheck):
             case = hyphen_unjson(meta['hyphen'])
             return hyphen_violation(case, real_sfl_hyphen(case))
         if meta.get('inline') or inp.get('inline'):
-            v = inline_replay(meta if meta.get('inline') else inp)
-            return v[0] if v else None
+            vs, model_violations = inline_replay(meta if meta.get('inline') else inp, self.model_output)
+            return unexplained_all(vs, model_violations)
         if section == 'text-align' or ('spec' in meta and 'text' not in meta):
             spec = spec_unjson(meta['spec'])
             return align_violation(spec, real_align(spec))
@@ -2029,13 +2446,12 @@ def finding_break_all_hyphen():
     return isinstance(canon, list) and len(canon) > 0 and canon[0][4] != 'none' and dec(canon[0][4][0]) == 'a'
 
 
-def finding_negative_width():
-    """`overflow-wrap: anywhere`, width 30px, text-indent 40px: the whole text stays on the first line."""
-    spec = {'text': 'aa b cc', 'ws': 'normal', 'wb': 'normal', 'ow': 'anywhere', 'fs': Fraction(10),
+def regression_negative_width_spec():
+    """Repaired finding negative-width-unbroken (fix 3c674e2): `overflow-wrap: anywhere`, width 30px, text-indent 40px,
+    'aa b cc' stayed on one line; a regression case of the `regressions` section, judged at full strength."""
+    return {'text': 'aa b cc', 'ws': 'normal', 'wb': 'normal', 'ow': 'anywhere', 'fs': Fraction(10),
             'width': Fraction(30), 'lh': 'normal', 'indent': Fraction(40), 'all': 'start', 'last': 'auto',
             'rtl': False, 'ml': Fraction(0)}
-    (_, text, block, canon, _), = render_paragraphs([spec])
-    return isinstance(canon, list) and len(canon) == 1 and canon[0][4] != 'none' and dec(canon[0][4][0]) == 'aa b cc'
 
 
 def _inline_lines(width, body):
@@ -2063,6 +2479,23 @@ def finding_end_reserved():
     return len(lines) >= 2 and lines[0][1].strip() == 'xxxx'
 
 
+def finding_boundary():
+    """<span><i>rr </i>anin</span>sss in 75px: one line of 100px, the opportunity after 'rr ' (a boundary between two
+    children of the waiting span) is not used; the same text in one text box breaks after 'rr'."""
+    lines = _inline_lines(75, '<span><i>rr </i>anin</span>sss')
+    return len(lines) == 1 and lines[0][0] > 75 and ' ' in lines[0][1].strip()
+
+
+def finding_stale_preserved():
+    """white-space:pre-line; width:120px; text-align-last:right; 'uuuu wwwww<span>rrrrr\\nx</span> jjj': the first line
+    'uuuu' (not a last line, no forced break after it) is right-aligned."""
+    html = f'<style>{PAGE_CSS}</style>' + corpus_body('preserved_line_break_flag_stale_after_rebreak')
+    _, pages = ic.pipeline_trees(html, enc)
+    (block, lines), = ic.laid_out_paragraphs(pages)
+    first = ''.join(b.text for b in lines[0].descendants() if hasattr(b, 'text'))
+    return len(lines) == 3 and first.strip() == 'uuuu' and Fraction(lines[0].position_x) > Fraction(block.content_box_x())
+
+
 def finding_stale_width():
     """<span>aaa bbb<span style="padding-left:10px"> ccc</span></span> in 70px: the outer span of the first line is
     70px wide and holds only 'aaa' (30px)."""
@@ -2074,15 +2507,15 @@ def finding_stale_width():
     return Fraction(span.width) != sum(Fraction(c.margin_width()) for c in span.children)
 
 
-def finding_top_bottom():
-    """aa <span style="vertical-align:top"><b style="font-size:20px">dd</b></span>: the text 'dd' is placed above the
-    top of its line box."""
-    html = '<p style="font-size:10px;width:400px">aa <span style="vertical-align:top"><b style="font-size:20px">dd</b></span></p>'
-    for _, _, proto, impl in render_vertical_lines([html]):
-        parsed = sx.loads_line(proto)
-        v = vertical_violation(parsed[1], parsed[2], impl)
-        return bool(v) and v[1] == FINDING_TOP_BOTTOM
-    return False
+REGRESSION_VERTICAL = [
+    # repaired finding vertical-align-top-bottom-subtree (fix 5152049): 'dd' was left above the line box
+    '<p style="font-size:10px;width:400px">aa <span style="vertical-align:top"><b style="font-size:20px">dd</b></span></p>',
+    # the other half of the same repair: a bottom box nested in a top box was moved twice
+    '<p style="font-size:10px;width:400px"><span style="vertical-align:top;line-height:30px">'
+    '<i style="vertical-align:bottom">x</i></span> aa</p>',
+    '<p style="font-size:10px;width:400px">aa <span style="vertical-align:bottom"><b style="font-size:20px">dd '
+    '<i style="vertical-align:top;font-size:5px">e</i></b></span></p>',
+]
 
 
 def corpus_body(name):
@@ -2128,17 +2561,47 @@ def finding_soft_hyphen():
     return ' ' in first.strip() and Fraction(lines[0].width) > Fraction(block.width)
 
 
-def inline_replay(meta):
+def inline_width_variants(html):
+    """The same `<p>` in the neighbouring block widths (half-em steps), nearest first."""
+    import re
+    m = re.search(r'(?<![-a-z])width:([0-9.]+)px', html)
+    f = re.search(r'font-size:([0-9.]+)px', html)
+    if not m:
+        return [html]
+    width = Fraction(m.group(1))
+    step = Fraction(f.group(1)) / 2 if f else Fraction(5)
+    out = [html]
+    for k in range(1, 9):
+        for sign in (1, -1):
+            w = width + sign * k * step
+            if w >= 0:
+                out.append(html[:m.start(1)] + str(float(w)) + html[m.end(1):])
+    return out
+
+
+def inline_replay(meta, model_output):
+    """-> (violation on the implementation, thunk giving the violation on the model's lines for the same input)"""
     html = f'<style>{PAGE_CSS}</style>' + meta['html']
     before, pages = ic.pipeline_trees(html, enc)
     (block, lines), = ic.laid_out_paragraphs(pages)
     if before[0] is None:
-        return None
+        return [], lambda: []
     canon = [[snap(line.position_x), snap(line.position_y), snap(line.width), snap(line.height),
               [ic.frag_wire(child, enc, snap) for child in line.children]] for line in lines]
     canon = sx.loads_line(sx.dumps(canon))[0]
     nodes = sx.loads_line(sx.dumps(before[0]))[0]
-    return inline_violation(nodes, Fraction(block.width), canon)
+    ws = block.style['white_space']
+    style = block.style
+    place = None
+    if style['direction'] == 'ltr' and style['text_align_all'] != 'justify' and style['text_align_last'] != 'justify':
+        place = (Fraction(block.content_box_x()), style['text_align_all'], style['text_align_last'])
+
+    def model_violation():
+        spec = {'ws': ws, 'fs': Fraction(style['font_size']), 'all': style['text_align_all'],
+                'last': style['text_align_last']}
+        proto = inline_line(spec, before[0], block.content_box_x(), block.content_box_y(), block.width)
+        return inline_violations(nodes, Fraction(block.width), inline_canon_from_wire(model_output(proto)), ws, place)
+    return inline_violations(nodes, Fraction(block.width), canon, ws, place), model_violation
 
 
 def hyphen_json(case):
@@ -2156,6 +2619,15 @@ def hyphen_unjson(case):
     out['limits'] = tuple(case['limits'])
     out['zone'] = tuple(case['zone'])
     return out
+
+
+def float_inline_json(spec):
+    return {'ws': spec['ws'], 'fs': str(spec['fs']), 'indent': str(spec['indent']), 'all': spec['all'],
+            'last': spec['last']}
+
+
+def float_inline_unjson(spec):
+    return dict(spec, fs=Fraction(spec['fs']), indent=Fraction(spec['indent']))
 
 
 def spec_json(spec):
@@ -2185,7 +2657,7 @@ def kid_unjson(k):
         return ['t', Fraction(k[1]), Fraction(k[2]), k[3]]
     if k[0] == 'i':
         return ['i', Fraction(k[1]), Fraction(k[2]), bool(k[3]), [kid_unjson(x) for x in k[4]]]
-    return ['a', Fraction(k[1]), bool(k[2])]
+    return ['a', Fraction(k[1]), bool(k[2]), [kid_unjson(x) for x in k[3]], k[4]]
 
 
 def canon_from_wire(s):
@@ -2227,20 +2699,25 @@ MANIFEST = {
             'rendered paragraphs; an inline box carries start / end spacing on its first / last fragment only.',
     'note': 'Trusted: Lean kernel; the AST translator; the abstract Pango; ASCII texts without the test font\'s kerning '
             'pair kk and ligature liga; dyadic lengths. Known findings: break-all-hyphen-width (under word-break:break-all '
-            "the width of Pango's automatic hyphen is charged although none is drawn: lines end one character early) and "
-            'negative-width-unbroken (a negative available width with overflow-wrap:anywhere / break-all makes the line '
-            'unconstrained). heuristic_transparent is false for texts with a space before a newline under collapsing '
+            "the width of Pango's automatic hyphen is charged although none is drawn: lines end one character early). "
+            'heuristic_transparent is false for texts with a space before a newline under collapsing '
             'white-space (never produced by white-space processing): witness in Witness/C09. Known findings on nested '
             'inline boxes: inline-start-spacing-overflow, inline-end-spacing-overflow, inline-end-spacing-reserved-early, '
             'inline-box-width-stale (the greedy / extents clauses are judged only in the sub-domain where the unchanged '
             'code satisfies them). Round 2: vertical placement inside a line (strut, half-leading, every '
             'vertical-align value, top / bottom subtrees) modelled exactly and proved to keep every box inside its line '
-            'when no top / bottom box is involved (finding vertical-align-top-bottom-subtree otherwise); preferred widths '
+            'for every vertical-align value and nesting (full strength since the repair of vertical-align-top-bottom-subtree); preferred widths '
             'of inline content modelled exactly, max-content of a canonical text proved and proved to fit on one line; '
             'lines next to floats modelled on C11\'s avoid_collisions, the gap proved free of floats, lines proved '
             'stacked downwards, termination, and proved equal to the plain paragraph when there is no float (finding '
             'float-gap-text-indent-later-lines: the min-content width used to choose the gap counts text-indent on every '
-            'line). Soft hyphens are not modelled (finding soft-hyphen-forces-overflowing-line is replayed at document '
-            'level only). Not modelled: bidi (rtl paragraphs only with normal word-break/overflow-wrap, nested inline '
+            'line). Round 3: negative-width-unbroken and vertical-align-top-bottom-subtree were repaired (fixed: entries, '
+            'regression theorems, a corpus-first regressions section); boxes_inside_line is now proved for every nesting '
+            'of top / bottom boxes; nested inline boxes are modelled under every white-space value, next to floats '
+            '(LineFloatsInline, proved equal to the plain nested paragraph without floats), and with atomic boxes holding '
+            'spaces of their own in justified lines; the white-space tuples of can_break_inside, split_inline_box and '
+            'inline_line_widths are regenerated from the source and proved to agree with split_first_line; new finding '
+            'waiting-box-boundary-opportunity-unused. Soft hyphens are not modelled (finding '
+            'soft-hyphen-forces-overflowing-line is replayed at document level only). Not modelled: bidi (rtl paragraphs only with normal word-break/overflow-wrap, nested inline '
             'boxes only ltr), floats inside lines, atomic inlines, first-letter, leaders.',
 }
